@@ -249,6 +249,14 @@
                (tuple 'def 'r (tuple f ;(seq [i :range [0 n]] (symbol "x" i))))
                '(set HOOK nil)
                'r)
+         args)
+    # the same with the call inside a closure: there the operand variables are UPVALUE slots (loaded by `ldu` when an instruction needs them)
+    (add "var-clobber-up"
+         (mkfn ps ;(seq [i :range [0 n]] (tuple 'var (symbol "x" i) (in ps i)))
+               (tuple 'set 'HOOK (tuple 'fn [] ;(seq [i :range [0 n]] (tuple 'set (symbol "x" i) :clobbered))))
+               (tuple 'def 'r (tuple (tuple 'fn [] (tuple f ;(seq [i :range [0 n]] (symbol "x" i))))))
+               '(set HOOK nil)
+               'r)
          args))
   # conditions
   (defn nilc [args] (seq [i :range [0 n]] (if (nil? (in args i)) nil (in ps i))))
